@@ -722,7 +722,7 @@ func (e *specEnv) evalModTargets(ex SExpr) []modTarget {
 		var out []modTarget
 		for _, tg := range n.evalModTargets(imp.R) {
 			m := tg.match
-			out = append(out, modTarget{prefix: tg.prefix, match: func(ref, idx *Term) *Term {
+			out = append(out, modTarget{prefix: tg.prefix, fresh: tg.fresh, match: func(ref, idx *Term) *Term {
 				return c.Exists(bound, c.And(cond, m(ref, idx)))
 			}})
 		}
@@ -815,14 +815,15 @@ func (e *specEnv) evalModTargets(ex SExpr) []modTarget {
 				for _, a := range ex.Args[1:] {
 					for _, tg := range e.evalModTargets(a) {
 						m := tg.match
-						out = append(out, modTarget{prefix: tg.prefix, match: func(ref, idx *Term) *Term { return c.And(cond, m(ref, idx)) }})
+						out = append(out, modTarget{prefix: tg.prefix, fresh: tg.fresh, match: func(ref, idx *Term) *Term { return c.And(cond, m(ref, idx)) }})
 					}
 				}
 				return out
 			case "fresh":
 				// everything allocated since the function was entered
-				top0 := x.entry.allocTop
-				return []modTarget{{prefix: "", match: func(ref, idx *Term) *Term { return c.Gt(ref, top0) }}}
+				// relative to the function the clause belongs to: at a call site e.old is the pre-call state
+				top0 := e.old.allocTop
+				return []modTarget{{prefix: "", fresh: true, match: func(ref, idx *Term) *Term { return c.Gt(ref, top0) }}}
 			}
 		}
 	case SSel:
